@@ -12,10 +12,12 @@ import (
 var parts = map[string]func(*vk.Ctx){}
 
 var harnesses = map[string]func(*vsched.H){
-	"MergeOKCount":   harness.MergeOKCount,
-	"MergeReq":       harness.MergeReq,
-	"RouterScenario": harness.RouterScenario,
-	"SessionEnd":     harness.SessionEnd,
+	"MergeOKCount":         harness.MergeOKCount,
+	"MergeReq":             harness.MergeReq,
+	"RouterScenario":       harness.RouterScenario,
+	"SessionEnd":           harness.SessionEnd,
+	"CacheConcurrent":      harness.CacheConcurrent,
+	"CacheHandlerSessions": harness.CacheHandlerSessions,
 }
 
 func main() {
